@@ -308,6 +308,14 @@ func (db *DB) exist(o Object) (ok bool, err error) {
 		return
 	}
 
+	// an object accepted with asynchronous writes
+	// is possibly not written on disk yet
+	if s.mustCache() {
+		if _, ok = db.cache.get(o); ok {
+			return
+		}
+	}
+
 	path = db.oPath(s, o)
 	stat, err := os.Stat(path)
 	if os.IsNotExist(err) {
